@@ -399,18 +399,39 @@ def rule_binders(ctx):
                      "inserted into the used-name set by that term's UsedBinders impl; a binder missing there can coincide with a "
                      "generated name and capture it")
     binders = {}
+    # the functions that add a binder to a context: add_var / add_covar / add_types, and wrappers of the context module that hand one of
+    # their own parameters on to them (`with_var(&self, var, ty)` = clone + add_var)
+    adders = {}
     for k, f in sorted(fx.fns.items()):
-        if f["crate"] != "fun" or "{promoted" in k:
+        if f["crate"] == "fun" and k.startswith("fun::syntax::context::") and "{" not in k and f.get("name") in ("add_var", "add_covar", "add_types"):
+            adders[k] = 0 if f["name"] == "add_types" else 1
+    for k, f in sorted(fx.fns.items()):
+        if f["crate"] != "fun" or not k.startswith("fun::syntax::context::") or "{" in k or k in adders:
+            continue
+        wfn = None
+        for b in f["blocks"]:
+            t = b["term"]
+            k2 = t.get("resolved_key") or t.get("callee_key") if t["k"] == "call" else None
+            if k2 in adders and len(t["args"]) > adders[k2]:
+                wfn = wfn or Fn(f)
+                wflow = Flow(wfn)
+                r = op_root(t["args"][adders[k2]])
+                for o in (wflow.origins(r, ()) if r is not None else ()):
+                    if o[0] == "arg" and not o[2] and 1 <= o[1] <= f["argc"]:
+                        adders.setdefault(k, o[1] - 1)
+    for k, f in sorted(fx.fns.items()):
+        if f["crate"] != "fun" or "{promoted" in k or k in adders:
             continue
         fn = None
         for bi, b in enumerate(f["blocks"]):
             t = b["term"]
-            if t["k"] != "call" or t.get("callee_name") not in ("add_var", "add_covar", "add_types"):
+            if t["k"] != "call":
                 continue
-            if not (t.get("callee_key") or "").startswith("fun::syntax::context::"):
+            k2 = t.get("resolved_key") or t.get("callee_key")
+            if k2 not in adders:
                 continue
             fn = fn or Fn(f)
-            ai = 0 if t["callee_name"] == "add_types" else 1
+            ai = adders[k2]
             r = op_root(t["args"][ai]) if len(t["args"]) > ai else None
             src = _field_source(fn, r) if r is not None else None
             if src is None:
